@@ -120,7 +120,13 @@ func (s CallableSchema) CallSignal(
 			Message: fmt.Sprintf("Invalid step called: %s", stepID),
 		}
 	}
-	unserializedInputData, err := step.SignalHandlers()[signalID].DataSchema().Unserialize(serializedInputData)
+	signalHandler, ok := step.SignalHandlers()[signalID]
+	if !ok {
+		return BadArgumentError{
+			Message: fmt.Sprintf("Invalid signal called: %s (step %s)", signalID, stepID),
+		}
+	}
+	unserializedInputData, err := signalHandler.DataSchema().Unserialize(serializedInputData)
 	if err != nil {
 		return InvalidInputError{err}
 	}
